@@ -19,13 +19,19 @@ from ..common import enc, ask, call
 
 LEVEL = "proof"
 PROP_FILES = ["PersimVerif/Props/C04.lean", py2lean.prop_file("weights")]
-RULE = ("one PRNG; imagers on NON-square grids (rx, ry in 1..7, rx != ry in 6 of 7 cases), pixel sizes dyadic and non-dyadic, "
+RULE = ("one PRNG; imagers on NON-square grids (rx, ry in 1..7, rx != ry in 6 of 7 cases; plus a class of 24 / 150 LARGE grids 40x3, 3x40, "
+        "64x64, 64x5, 33x17, 1x100, 128x2 with the uniform / zero-covariance Gaussian kernel at 1x/4x/12x the usual size and 4-24 points, "
+        "every pixel against the closed-form mass), pixel sizes dyadic and non-dyadic, "
         "whole-configuration scale 2^-10/1/2^10; diagrams of 0-6 points placed inside / exactly on mesh lines / outside / far "
         "outside / on the diagonal / duplicated, given as (b,d) with skew=True or pre-converted with skew=False; kernels: Gaussian "
         "with scalar variance (float/int/np.float64), 2x2 matrix (list/array/tuple) with equal or unequal variances, zero or "
-        "non-zero covariance (|r| up to 0.99, equal-variance correlated included), uniform box, user callables; weights: "
-        "persistence (n random), linear_ramp (random low/high/start/end, all three branches), user callable. "
-        "a point in 8 lies BELOW the diagonal (negative persistence: sign kept for odd n, NaN image for fractional n, `low` for the ramp); "
+        "non-zero covariance (|r| up to 0.999, equal-variance correlated included), uniform box, user callables; weights: "
+        "persistence (n random), linear_ramp (random low/high/start/end, all three branches, low/high negative in 3 of 7), user callable "
+        "(coefficients negative in 3 of 7). "
+        "OUTSIDE the quantifier, compared with the model only (a disagreement there is a correspondence break, never a claimed failing input; "
+        "the same configuration restricted to the quantifier is judged instead): a point in 22 lies BELOW the diagonal (negative persistence: "
+        "sign kept for odd n, NaN image for fractional n, `low` for the ramp), and 15% of the equal-variance matrices carry an ASYMMETRIC "
+        "sigma[1][0] != sigma[0][1] = 0; "
         "ramp and user weights are scaled by 1e-12 / 1e-9 / 1 / 1e6 (tolerances are relative to the total absolute weight). "
         "non-trivial = at least one point of non-zero weight whose kernel puts mass > 1e-6 inside the grid; distinct by digest of the case")
 ASSUMPTIONS = [
@@ -344,6 +350,37 @@ def within(x, y, tol, sc):
     return abs(x - y) <= tol * sc
 
 
+# ----------------------------------------------------------------------------- the property's quantifier
+
+def outside_quantifier(case):
+    """None when the case lies inside the quantifier of C04 (a DIAGRAM: every point has persistence >= 0; a COVARIANCE matrix:
+    symmetric), else what puts it outside.  Such cases are still generated and compared with the model (correspondence), but
+    what the code does with them is not fixed by the property: a disagreement there is never judged by the mass oracle and never
+    claimed as a failing input; the nearest case inside the quantifier (`project_inside`) is judged instead."""
+    why = []
+    if any(q[1] < 0 for q in to_bp(case)):
+        why.append("point below the diagonal")
+    k = case["kernel"]
+    if "S" in k and k["S"][0][1] != k["S"][1][0]:
+        why.append("asymmetric sigma")
+    return " + ".join(why) or None
+
+
+def project_inside(case):
+    """the same configuration restricted to the quantifier: points below the diagonal dropped, sigma[1][0] := sigma[0][1]"""
+    c = dict(case)
+    keep = [q[1] >= 0 for q in to_bp(case)]
+    c["dgm"] = [list(row) for row, kp in zip(case["dgm"], keep) if kp]
+    k = dict(case["kernel"])
+    if "S" in k:
+        S = [list(r) for r in k["S"]]
+        S[1][0] = S[0][1]
+        k["S"] = S
+    c["kernel"] = k
+    c["projected_from_outside_quantifier"] = outside_quantifier(case)
+    return c
+
+
 # ----------------------------------------------------------------------------- generators
 
 def dy(r, lo, hi, den=8):
@@ -364,14 +401,16 @@ def gen_kernel(r, kind, ps, scale, dyadic):
         a = r.choice([0.05, 0.3, 1.0, r.uniform(0.03, 2.0)]) * base
         d = a if kind in ("diag_eq", "corr_eq") else a * r.choice([0.25, 0.5, 2.0, 3.7, r.uniform(0.2, 5.0)])
         if kind in ("corr", "corr_eq"):
-            rho = r.choice([0.1, -0.3, 0.5, -0.7, 0.8, 0.9, -0.93, 0.95, 0.99, -0.99, r.uniform(-0.99, 0.99)])
+            rho = r.choice([0.1, -0.3, 0.5, -0.7, 0.8, 0.9, -0.93, 0.95, 0.99, -0.99, 0.999, -0.997, r.uniform(-0.99, 0.99)])
             c = rho * math.sqrt(a * d)
         else:
             c = 0.0
         rep = r.choice(["list", "array", "tuple"])
         S = [[a, c], [c, d]]
-        if kind == "diag_eq" and r.random() < 0.3:
-            S[1][0] = 0.37 * a          # sigma[1][0] is never read by the dispatch
+        if kind == "diag_eq" and r.random() < 0.15:
+            # NOT a covariance matrix (outside the quantifier, see outside_quantifier): kept as a correspondence-only probe of
+            # which entries the code reads; never judged by the mass oracle
+            S[1][0] = 0.37 * a
             rep = "list"
         return {"kind": "gaussian", "S": S, "repr": rep, "as": r.choice(["str", "callable"])}
     if kind == "uniform":
@@ -398,25 +437,32 @@ def gen_weight(r, pr, scale, dyadic):
             start = pr[0] + dy(r, 0, 1) * h / 1.0
             width = r.choice([0.25, 0.5, 1.0, 2.0]) * scale
             low, high = dy(r, 0, 2), dy(r, 0, 2)
+            if r.random() < 0.2:            # weights may be negative (the property fixes sum_k w_k*mass_k for every weight function)
+                low, high = r.choice([(-low, high), (low, -high), (-low, -high)])
             return {"kind": "linear_ramp", "low": low, "high": high, "start": start, "end": start + width, "as": r.choice(["str", "callable"])}
         start = pr[0] + r.uniform(-0.2, 0.8) * h
         end = start + r.uniform(0.05, 1.0) * h
         mag = r.choice([1.0, 1.0, 1.0, 1.0, 1e-9, 1e-12, 1e6])      # tiny / huge total weights: the tolerances are relative to sum|w|
-        return {"kind": "linear_ramp", "low": r.choice([0.0, r.uniform(0, 2), r.uniform(0, 2)]) * mag, "high": r.uniform(0, 2) * mag,
+        sl, sh = r.choice([(1, 1), (1, 1), (1, 1), (1, 1), (-1, 1), (1, -1), (-1, -1)])      # negative weights are weights too
+        return {"kind": "linear_ramp", "low": sl * r.choice([0.0, r.uniform(0, 2), r.uniform(0, 2)]) * mag, "high": sh * r.uniform(0, 2) * mag,
                 "start": start, "end": end, "as": r.choice(["str", "callable"])}
     mag = r.choice([1.0, 1.0, 1.0, 1.0, 1e-9, 1e-12, 1e6])
-    return {"kind": "user", "a": r.uniform(0, 2) * mag, "c": r.uniform(0, 2) / (scale * scale) * mag}
+    sa, sc_ = r.choice([(1, 1), (1, 1), (1, 1), (1, 1), (-1, 1), (1, -1), (-1, -1)])
+    return {"kind": "user", "a": sa * r.uniform(0, 2) * mag, "c": sc_ * r.uniform(0, 2) / (scale * scale) * mag}
 
 
-def gen_points(r, br, pr, ps, rx, ry, dyadic, n):
+def gen_points(r, br, pr, ps, rx, ry, dyadic, n, below=True):
     """n points in birth-persistence coordinates: inside / on mesh lines / outside / far / diagonal / duplicates /
-    BELOW the diagonal (negative persistence: a (b,d) row with d < b, or a negative second column with skew=False —
-    persistence**n keeps the sign for odd n, is NaN for fractional n; linear_ramp gives `low`)"""
+    (1 in 22, `below`) BELOW the diagonal (negative persistence: a (b,d) row with d < b, or a negative second column with
+    skew=False — persistence**n keeps the sign for odd n, is NaN for fractional n; linear_ramp gives `low`).  A case with a
+    point below the diagonal is not a diagram: outside the quantifier, correspondence only (see outside_quantifier)."""
     bp = []
     gx = [br[0] + t * ps for t in range(rx + 1)]
     gy = [pr[0] + t * ps for t in range(ry + 1)]
+    places = ["inside", "inside", "border", "outside", "far", "diag", "dup"]
+    places = places * 3 + (["below"] if below else ["inside"])
     for _ in range(n):
-        where = r.choice(["inside", "inside", "border", "outside", "far", "diag", "dup", "below"])
+        where = r.choice(places)
         if where == "dup" and bp:
             bp.append(list(r.choice(bp)))
             continue
@@ -457,14 +503,23 @@ def more_dgm(ctx, case, n=None):
 KINDS = ["scalar", "diag_eq", "diag_ne", "corr", "corr_eq", "uniform", "user_logistic", "user_gauss_wrap"]
 
 
-def gen_case(ctx, kind=None, dyadic=False):
+LARGE_GRIDS = [(40, 3), (3, 40), (64, 64), (64, 5), (33, 17), (1, 100), (128, 2)]
+LARGE_KINDS = ["uniform", "uniform", "diag_ne", "diag_ne", "diag_eq", "scalar"]      # kernels with a closed-form mass: every pixel is checked
+
+
+def gen_case(ctx, kind=None, dyadic=False, large=False):
+    """large=True: a grid of 100..4096 pixels (LARGE_GRIDS) with a uniform / zero-covariance Gaussian kernel whose size is 1x, 4x or
+    12x the usual one and 4..24 points spread over the grid, so that many pixels far apart carry mass (blocked / vectorised rewrites
+    that only go wrong above some pixel count)"""
     r = ctx.rng
-    kind = kind or r.choice(KINDS)
+    kind = kind or r.choice(LARGE_KINDS if large else KINDS)
     scale = 1.0 if dyadic else r.choice([2.0 ** -10, 1.0, 1.0, 1.0, 1.0, 2.0 ** 10])
     rx = r.randint(1, 7)
     ry = r.randint(1, 7)
     if rx == ry and r.random() < 0.85:
         ry = rx % 7 + 1
+    if large:
+        rx, ry = r.choice(LARGE_GRIDS)
     if dyadic:
         ps = r.choice([0.25, 0.5, 1.0])
         b0, p0 = dy(r, -2, 2, 4), dy(r, 0, 2, 4)
@@ -481,7 +536,18 @@ def gen_case(ctx, kind=None, dyadic=False):
     n = r.choice([0, 1, 1, 2, 3, 4, 6])
     if r.random() < 0.012:
         n = r.randint(257, 600)            # diagrams beyond a few hundred points (blocked / vectorised rewrites)
-    bp = gen_points(r, br, pr, ps, rx, ry, dyadic, n)
+    if large:
+        case["large_grid"] = True
+        f = r.choice([1.0, 4.0, 12.0])     # kernel size in units of the usual one (sd / box side)
+        k = case["kernel"]
+        if "s" in k:
+            k["s"] = k["s"] * (int(f * f) if k["repr"] == "int" else f * f)
+        elif "S" in k:
+            k["S"] = [[x * f * f for x in row] for row in k["S"]]
+        else:
+            k["width"], k["height"] = k["width"] * f, k["height"] * f
+        n = r.randint(4, 24)
+    bp = gen_points(r, br, pr, ps, rx, ry, dyadic, n, below=not large)
     case["skew"] = r.random() < 0.6
     case["decoy"] = r.random() < 0.3       # see run_real: a call on a look-alike imager right before the real one
     # the caller's diagram: (b, d) when skew, else the already converted (b, p)
@@ -515,7 +581,13 @@ def run_real(case):
         bpn, ppn, res = [float(x) for x in pim._bpnts], [float(x) for x in pim._ppnts], tuple(int(x) for x in pim.resolution)
         d = np.array(case["dgm"], dtype=np.float64).reshape(-1, 2)
         with np.errstate(all="ignore"):
-            st, v, _ = call(pim.transform, d, skew=case["skew"])
+            if case.get("via") == "fit_transform":
+                # the other public route to an image: the ranges are first fitted to the diagram, so the mesh is read afterwards
+                st, v, _ = call(pim.fit_transform, d, skew=case["skew"])
+                if st == "ok":
+                    bpn, ppn, res = [float(x) for x in pim._bpnts], [float(x) for x in pim._ppnts], tuple(int(x) for x in pim.resolution)
+            else:
+                st, v, _ = call(pim.transform, d, skew=case["skew"])
     n = len(case["dgm"])
     path = None
     if n > 0 and st == "ok":
@@ -595,6 +667,12 @@ def property_fails(case, code_img, bpn, ppn, res, focus=None, budget=40):
     return None
 
 
+def judge_inside(case, budget=40):
+    """the property on the real code for a case INSIDE the quantifier, by the independent mass oracle; a description or None"""
+    st, v, path, bpn, ppn, res = run_real(case)
+    return property_fails(case, ("err:" + v) if st == "err" else common.tolist(v), bpn, ppn, res, budget=budget)
+
+
 def pre_build(ctx):
     """source translator (DESIGN.md 3.2): regenerate Generated/SrcWeights.lean from PERSIM_ROOT's source"""
     py2lean.pre_build(ctx, ("weights",))
@@ -607,7 +685,8 @@ def run(ctx):
     n = ctx.n(3000, 30000)
     corpus = corpus_cases()
     cases = corpus + [gen_case(ctx, kind=KINDS[i % len(KINDS)] if i < 3 * len(KINDS) else None) for i in range(n)] \
-        + [gen_case(ctx, kind="uniform", dyadic=True) for _ in range(ctx.n(800, 6000))]
+        + [gen_case(ctx, kind="uniform", dyadic=True) for _ in range(ctx.n(800, 6000))] \
+        + [gen_case(ctx, large=True) for _ in range(ctx.n(24, 150))]
     cov = common.LineCov(["persim/images.py", "persim/images_weights.py"])
     reals = []
     for idx, case in enumerate(cases):
@@ -653,8 +732,9 @@ def run(ctx):
     answers = ask(lines)
     # compare
     pi = 0
-    pix_budget = ctx.n(500, 5000)
+    pix_budget = ctx.n(750, 7500)
     deferred, slow_search_budget = [], 60
+    projection_budget = {"fast": 80, "slow": 12}       # out-of-quantifier disagreements re-judged on their projection
     for ci, (case, (st, v, path, bpn, ppn, res)) in enumerate(zip(cases, reals)):
         code = ("err:" + v) if st == "err" else common.tolist(v)
         nt = st == "ok" and nontrivial(case, bpn, ppn)
@@ -662,6 +742,13 @@ def run(ctx):
         ctx.count("kernel:" + case["kind"]); ctx.count("weight:" + case["weight"]["kind"]); ctx.count("points:%d" % len(case["dgm"]))
         ctx.count("skew:%s" % case["skew"]); ctx.count("res:%dx%d" % res if max(res) <= 3 else "res:larger")
         _bp = to_bp(case)
+        oq = outside_quantifier(case)
+        if oq is not None:
+            ctx.count("outside_quantifier(correspondence only):" + oq)
+        if case.get("large_grid"):
+            ctx.count("large_grid:%dx%d" % res)
+        if any(x < 0 for x in weights_independent(case, _bp)) and oq is None:
+            ctx.count("has_negative_weight(inside quantifier)")
         if any(q[1] < 0 for q in _bp):
             ctx.count("has_point_below_diagonal")
             if any(math.isnan(x) for x in weights_independent(case, _bp)):
@@ -694,8 +781,9 @@ def run(ctx):
                 if not img_close(code, ans, tol, sc):
                     bad.append((op, "image differs from the model (%s, tol %g*%g)" % (op, tol, sc), li))
         pi += 1
-        # [T] the property itself on the real code, by masses computed independently of persim
-        if st == "ok" and len(case["dgm"]) > 0:
+        # [T] the property itself on the real code, by masses computed independently of persim — only for cases INSIDE the
+        # quantifier (a diagram, a covariance matrix); the others are compared with the model above and nothing more
+        if st == "ok" and len(case["dgm"]) > 0 and oq is None:
             a = np.asarray(v)
             okshape = a.shape == (len(bpn) - 1, len(ppn) - 1) == tuple(res)
             ctx.test("axes_birth_x_persistence", okshape)
@@ -704,9 +792,12 @@ def run(ctx):
                 fail = property_fails(case, v, bpn, ppn, res)
                 ctx.test("mass_closed_form_all_pixels", fail is None)
             elif okshape and pix_budget > 0:
-                # correlated Gaussian: 1-D quadrature of the marginalised density on a few pixels
-                for _ in range(2):
-                    i, j = r.randrange(res[0]), r.randrange(res[1])
+                # correlated Gaussian: 1-D quadrature of the marginalised density on a few pixels: two random ones and the
+                # pixel nearest to a random point of the diagram (where the mass is)
+                mu = r.choice(_bp)
+                near = (min(range(res[0]), key=lambda t: abs(0.5 * (bpn[t] + bpn[t + 1]) - mu[0])),
+                        min(range(res[1]), key=lambda t: abs(0.5 * (ppn[t] + ppn[t + 1]) - mu[1])))
+                for (i, j) in [(r.randrange(res[0]), r.randrange(res[1])), (r.randrange(res[0]), r.randrange(res[1])), near]:
                     s = spec_pixel(case, bpn, ppn, i, j)
                     ok = within(a[i, j], s, TOL_MASS, sc)
                     ctx.test("mass_quad1d_correlated", ok)
@@ -719,6 +810,28 @@ def run(ctx):
         # a broken correspondence is not by itself a violation: look for a pixel where the PROPERTY fails on this input; if
         # there is none, keep the disagreement and go on searching on the remaining cases (reported at the end, at most 2)
         for (op, what, li) in bad:
+            if oq is not None:
+                # the disagreeing input is OUTSIDE the quantifier: what the code does with it is not fixed by the property, so
+                # it is never judged by the mass oracle.  Judge the same configuration restricted to the quantifier instead.
+                pc = project_inside(case)
+                slow = mass_closed(case["kernel"], [0.0, 0.0], 0.0, 1.0, 0.0, 1.0) is None
+                key = "slow" if slow else "fast"
+                fail = None
+                if projection_budget[key] > 0:
+                    projection_budget[key] -= 1
+                    ctx.count("outside_quantifier_disagreement_rejudged_on_projection")
+                    fail = judge_inside(pc)
+                if fail is not None:
+                    ctx.violation("%s on an input outside the quantifier (%s); on the same case restricted to the quantifier: %s"
+                                  % (what, oq, fail), {"op": "transform", **pc}, found_input=True, correspondence="img." + op, law="mass")
+                else:
+                    ctx.count("correspondence_disagreements_outside_quantifier")
+                    if len([d for d in deferred if d[3]]) < 2:
+                        deferred.append((what + "; the input is outside the property's quantifier (%s) and the property holds on the same case "
+                                         "restricted to the quantifier" % oq,
+                                         {"correspondence": "img." + op, "line": lines[li][:1500], "code": code, "model": answers[li],
+                                          "outside_quantifier": oq, **case}, op, True))
+                break
             focus = maxdiff_pixel(code, answers[li]) if op != "dispatch" and not isinstance(code, str) else None
             slow = mass_closed(case["kernel"], [0.0, 0.0], 0.0, 1.0, 0.0, 1.0) is None
             if slow and slow_search_budget <= 0 and not isinstance(code, str):
@@ -730,15 +843,16 @@ def run(ctx):
                 ctx.violation("%s; %s" % (what, fail), {"op": "transform", **case}, found_input=True, correspondence="img." + op)
             else:
                 ctx.count("correspondence_disagreements_without_failing_pixel")
-                if len(deferred) < 2:
-                    deferred.append((what, {"correspondence": "img." + op, "line": lines[li][:1500], "code": code, "model": answers[li], **case}, op))
+                if len([d for d in deferred if not d[3]]) < 2:
+                    deferred.append((what + "; the independent mass oracle agrees with the code on this input",
+                                     {"correspondence": "img." + op, "line": lines[li][:1500], "code": code, "model": answers[li], **case}, op, False))
             break
         if len(ctx.violations) > 5:
             return
     density_stream(ctx)
-    for what, rec, op in deferred:
-        ctx.violation("%s; the independent mass oracle agrees with the code on this input" % what, rec, found_input=False,
-                      correspondence="img." + op)
+    fit_transform_stream(ctx)
+    for what, rec, op, _ in deferred:
+        ctx.violation(what, rec, found_input=False, correspondence="img." + op)
 
 
 def anchored_only(cov):
@@ -776,6 +890,8 @@ def density_stream(ctx):
         if not case["dgm"] or abs(corr_of(case["kernel"])) > 0.9:
             continue
         case["dgm"] = case["dgm"][:3]
+        if outside_quantifier(case) is not None:       # not a diagram / not a covariance matrix: nothing to integrate against
+            continue
         st, v, path, bpn, ppn, res = run_real(case)
         if st != "ok":
             continue
@@ -797,6 +913,42 @@ def density_stream(ctx):
                           % (i, j, float(a[i, j]), s2, s1), {"op": "transform", **case}, found_input=True, law="density")
             if len(ctx.violations) > 5:
                 return
+
+
+def fit_transform_stream(ctx):
+    """[T] the property when the image comes from `fit_transform(diagram, skew=...)` (ranges fitted to the diagram, then the same
+    transform): every pixel of the fitted grid against the closed-form mass, (b,d) and (b,p) call styles.  What `fit` chooses as
+    ranges is C12/C18's; here the mesh is read from the imager after the call, and a call that raises is only counted."""
+    r = ctx.rng
+    target, done, guard = ctx.n(60, 400), 0, 0
+    while done < target and guard < 20 * target:
+        guard += 1
+        case = gen_case(ctx, kind=r.choice(["scalar", "diag_ne", "diag_eq", "uniform", "user_logistic"]))
+        if len(case["dgm"]) < 2 or outside_quantifier(case) is not None:
+            continue
+        bp = to_bp(case)
+        ext = [(max(q[t] for q in bp) - min(q[t] for q in bp)) / case["pixel_size"] + 1 for t in (0, 1)]
+        if ext[0] * ext[1] > 2500:                  # a far point makes the fitted grid huge: keep the closed-form sweep affordable
+            case["dgm"] = [row for row, q in zip(case["dgm"], bp) if abs(q[0] - bp[0][0]) < 20 * case["pixel_size"]
+                           and abs(q[1] - bp[0][1]) < 20 * case["pixel_size"]]
+            if len(case["dgm"]) < 2:
+                continue
+        case["via"], case["decoy"] = "fit_transform", False
+        st, v, path, bpn, ppn, res = run_real(case)
+        if st != "ok":
+            ctx.count("fit_transform_raised:" + str(v))
+            continue
+        if len(bpn) < 2 or len(ppn) < 2 or not all(math.isfinite(x) for x in bpn + ppn):
+            ctx.count("fit_transform_degenerate_grid")
+            continue
+        done += 1
+        ctx.count("fit_transform_cases:skew=%s" % case["skew"])
+        fail = property_fails(case, common.tolist(v), bpn, ppn, res)
+        ctx.test("mass_closed_form_via_fit_transform", fail is None)
+        if fail is not None:
+            ctx.violation("fit_transform(diagram, skew=%s): pixel is not the weighted kernel mass: %s" % (case["skew"], fail),
+                          {"op": "fit_transform", **case}, found_input=True, law="mass")
+            return
 
 
 def corpus_cases():
@@ -827,6 +979,11 @@ def replay(ctx, rep):
     if "dgm" not in c or "kernel" not in c:
         print("correspondence replay: re-run `./check.py C04` with VERIF_SEED=%s" % rep.get("seed"))
         return True
+    oq = outside_quantifier(c)
+    if oq is not None:
+        print("the recorded input is outside the property's quantifier (%s): the property says nothing about it; evaluating the same "
+              "configuration restricted to the quantifier" % oq)
+        c = project_inside(c)
     st, v, path, bpn, ppn, res = run_real(c)
     print("code:", st, (np.asarray(v).tolist() if st == "ok" else v), "path:", path)
     fail = property_fails(c, ("err:" + v) if st != "ok" else v, bpn, ppn, res, budget=200)
@@ -847,14 +1004,18 @@ MANIFEST = {
             "linear_ramp (middle branch under start != end). The model is tied to the code on every run: full image matrices on non-square "
             "grids against the model fed with the real kernel's corner values (1e-12 x total weight), the model's own fast / zero-covariance "
             "/ uniform paths at Float (1e-9 x total weight), exact rational equality for the uniform kernel on dyadic inputs, and the "
-            "dispatch decision against call counters; diagrams include points below the diagonal (negative persistence).",
+            "dispatch decision against call counters. Inputs outside the quantifier (points below the diagonal, asymmetric sigma) are "
+            "compared with the model only: what the code does there is not fixed by the property, a disagreement is reported as a "
+            "correspondence break and the same configuration restricted to the quantifier is judged by the mass oracle instead.",
     "note": "Trusted: Lean kernel + Mathlib (axioms propext/Classical.choice/Quot.sound); the correspondence harness; NumPy slicing/broadcast "
             "semantics as modelled; mesh and resolution taken from the imager (C12; composed in C12.reachable_image_shape). NOT proved: that "
             "bvn_cdf is the bivariate normal CDF (C13) - for the correlated Gaussian and for user kernels pixel_is_kernel_mass keeps the "
             "hypothesis hcdf; that scipy's erfc-based norm_cdf is the standard normal CDF (C13's contract). [T] streams compare pixels of "
             "the real code with masses computed independently of persim (closed forms on all pixels, 1-D quadrature of the marginalised "
-            "density for correlated Gaussians on 2 random pixels of up to 500 / 5000 images, scipy dblquad of the density on 30 / 120 random "
-            "pixels, quick / thorough) to 1e-6 RELATIVE to the total absolute weight of the diagram (no floor at 1: tiny weights are not "
+            "density for correlated Gaussians (|r| up to 0.999) on 3 pixels - 2 random, 1 nearest a point - per image up to 750 / 7500 pixels, "
+            "scipy dblquad of the density on 30 / 120 random pixels with |r| <= 0.9, 60 / 400 images obtained through fit_transform (closed forms, "
+            "all pixels of the fitted grid), quick / thorough; grids up to 64x64 / 128x2 pixels with the "
+            "closed-form kernels) to 1e-6 RELATIVE to the total absolute weight of the diagram (no floor at 1: tiny weights are not "
             "accepted vacuously). Float rounding is outside the theorems.",
     "technique": "Lean 4 theorems (incl. Mathlib measure theory) over a hand-written model + differential correspondence + numerical integration tests",
 }
